@@ -39,7 +39,7 @@ pub fn stark_verify<Layout: LayoutTrait>(
     )?;
 
     // Compute query points.
-    let points = queries_to_points(queries, stark_domains);
+    let points = queries_to_points(queries, stark_domains)?;
 
     // Evaluate the FRI input layer at query points.
     let eval_info = OodsEvaluationInfo {
@@ -77,6 +77,9 @@ pub enum Error {
 
     #[error("TableDecommit Error")]
     TableDecommitError(#[from] swiftness_commitment::table::decommit::Error),
+
+    #[error("Queries Error")]
+    QueriesError(#[from] crate::queries::Error),
 }
 
 #[cfg(not(feature = "std"))]
@@ -93,4 +96,7 @@ pub enum Error {
 
     #[error("TableDecommit Error")]
     TableDecommitError(#[from] swiftness_commitment::table::decommit::Error),
+
+    #[error("Queries Error")]
+    QueriesError(#[from] crate::queries::Error),
 }
